@@ -18,6 +18,7 @@ import shutil
 import cfggen
 import gen
 import vlib
+from ext import globinc
 
 FINISH = dict(
     level="proof",
@@ -1546,6 +1547,7 @@ def run(ctx):
         ctx.count("gen:unmodelled-global-options", len(g["unmodelled_options"]))
     if not g.get("merge_complete"):
         print("C14: the [global] merge block of read_cnf forgets: %s" % ", ".join(g.get("merge_missing", [])))
+    globinc.extend(ctx)
     scratch = os.path.join(vlib.BUILD, "scratch", "c14-%d" % os.getpid())
     shutil.rmtree(scratch, ignore_errors=True)
     os.makedirs(scratch)
@@ -1594,6 +1596,11 @@ def replay(ctx):
         r = json.load(f)
     obj = r.get("replay", r)
     spec = obj.get("spec") or (r.get("context") or {}).get("spec")
+    gobj = obj if str(obj.get("kind", "")).startswith("globinc") else (r.get("context") or {})
+    if str(gobj.get("kind", "")).startswith("globinc"):
+        vlib.lake_build(["acmed_model"])
+        vlib.build_acmed()
+        return globinc.replay(gobj, ctx)
     if spec is None:
         print("nothing to replay in %s (no tree): %s" % (ctx.replay, r.get("no_longer_checks", "")))
         return 2
